@@ -123,7 +123,57 @@ def structured_points():
         for t in (F(-6), F(-3, 2), F(-1, 2), F(1, 2), F(3, 2), F(6)):
             pts += [("cut-real-above@%d" % k, t, d), ("cut-real-below@%d" % k, t, -d),
                     ("cut-imag-right@%d" % k, d, t), ("cut-imag-left@%d" % k, -d, t)]
+    # the branch points / unit points themselves, z = +-1, +-i (|z| exactly 1 on both axes): regular points of most
+    # functions (value comparison is skipped only for the functions whose cut ends there, see CUTS)
+    pts += [("unit", F(1), F(0)), ("unit", F(-1), F(0)), ("unit", F(0), F(1)), ("unit", F(0), F(-1))]
+    # the two ends of the quantified range of moduli: |z| = 10 exactly (axes and the 6-8-10 triangle in every quadrant)
+    # and |z| = 33/32768 = 1.007e-3 (axes) / sqrt(74)/8192 = 1.05e-3 (quadrants)
+    pts += [("end", F(10), F(0)), ("end", F(-10), F(0)), ("end", F(0), F(10)), ("end", F(0), F(-10)),
+            ("end", F(6), F(8)), ("end", F(-8), F(6)), ("end", F(-6), F(-8)), ("end", F(8), F(-6))]
+    e = F(33, 32768)
+    pts += [("end", e, F(0)), ("end", -e, F(0)), ("end", F(0), e), ("end", F(0), -e),
+            ("end", F(5, 8192), F(7, 8192)), ("end", F(-7, 8192), F(5, 8192)), ("end", F(-5, 8192), F(-7, 8192)), ("end", F(7, 8192), F(-5, 8192))]
     return pts
+
+# ----------------------------------------------------------------------------- special structure (search only)
+# Classes of arguments on which a fast path or a cancellation can hide; see findings/special-values-specB/C14-table.md.
+# None of these is a dyadic point of the structured set: they are compared with mpmath and through the identities, not
+# certified (an Interval certificate of tan at fl(pi/2) would need more than the 70 bits the staging uses).
+def unit_off_axis():
+    """f64 points of modulus 1 (to rounding) off the axes: the 3-4-5 triangle in every quadrant and the diagonal"""
+    h = math.sqrt(0.5)
+    return [(0.6, 0.8), (-0.8, 0.6), (-0.6, -0.8), (0.8, -0.6), (h, h), (-h, h), (-h, -h), (h, -h)]
+
+UNIT_AXIS = [(1.0, 0.0), (-1.0, 0.0), (0.0, 1.0), (0.0, -1.0)]
+
+def zero_pole_points(g, thorough):
+    """[(category, x, y)]: the zeros and poles of the direct functions inside |z| <= 10 -- fl(k pi/2), k = +-1..+-6, on
+    the real axis (sin, cos, tan, sec, csc, cot; a real/imaginary part of sinh, cosh vanishes) and on the imaginary axis
+    (sinh, cosh, tanh, sech, csch, coth; sin, cos) -- exactly, displaced along the axis by +-2^-20 / +-2^-30 (next to the
+    pole, where a formula that cancels loses its digits) and displaced across the axis by 2^-20 and 1/2."""
+    out = []
+    for k in range(1, 7):
+        for sgn in (1.0, -1.0):
+            t = sgn * (k * (math.pi / 2))               # k*fl(pi/2) is exact for k <= 6 up to one rounding: any f64 next to k pi/2 will do
+            for axis in ("re", "im"):
+                P = lambda a, b: (a, b) if axis == "re" else (b, a)
+                out.append(("zp-exact", ) + P(t, 0.0))
+                offs = [("zp-along", P(t + s * 2.0 ** -e, 0.0)) for e in (20, 30) for s in (1, -1)] + \
+                       [("zp-across", P(t, s * d)) for d in (2.0 ** -20, 0.5) for s in (1, -1)]
+                for c, p in (offs if thorough else g.shuffle(offs)[:2]):
+                    out.append((c,) + p)
+    return [(c, x, y) for (c, x, y) in out if 1e-3 <= math.hypot(x, y) <= 10]
+
+# exponents with structure: 0, +-1, +-2, +-3, +-1/2, 3/2, +-i, 1+-i, 2i, and a nearly real one
+SPECIAL_W = [(0.0, 0.0), (1.0, 0.0), (-1.0, 0.0), (2.0, 0.0), (-2.0, 0.0), (3.0, 0.0), (-3.0, 0.0), (0.5, 0.0), (-0.5, 0.0), (1.5, 0.0),
+             (0.0, 1.0), (0.0, -1.0), (1.0, 1.0), (1.0, -1.0), (0.0, 2.0), (2.0, 2.0 ** -20)]
+# bases of log with structure: negative real, +-i, 2, 1/2, 10, e, unit modulus off the axes, next to 1 (small ln b)
+LOG_BASES = [(-1.0, 0.0), (0.0, 1.0), (0.0, -1.0), (2.0, 0.0), (0.5, 0.0), (10.0, 0.0), (math.e, 0.0), (0.6, 0.8), (-2.0, 0.0),
+             (1.0 + 2.0 ** -10, 0.0), (1.0, 2.0 ** -10), (-3.0, -4.0)]
+# polar angles with structure: 0, the quarter turns as f64 (fl(pi/2), fl(pi)), the diagonals, next to 0 and next to +-pi
+POLAR_T = [0.0, math.pi / 2, -math.pi / 2, math.pi, -math.pi, math.pi / 4, -3 * math.pi / 4, 2.0 ** -30, -2.0 ** -30,
+           math.pi - 2.0 ** -20, -math.pi + 2.0 ** -20, 1.0, -2.0]
+POLAR_R = [33.0 / 32768, 0.0078125, 0.5, 1.0, 2.0, 10.0]
 
 def fl(x):
     """exact float of a dyadic Fraction"""
